@@ -3,6 +3,7 @@ Each model: fn(engine, state, args, kwargs) -> [(state, value | Raise)]
 """
 import z3
 from .values import *
+from .values import UNFOLD
 from . import symexec as SX
 
 
@@ -184,6 +185,29 @@ def b_callable(en, st, a, kw):
 obj_callable = z3.Function('obj_callable', V, BoolS)
 
 
+# number of positionally bound arguments of a partial object (entries under integer keys)
+partial_npos = z3.RecFunction('partial_npos', VL, IntS)
+_pl = z3.Const('pnp_l', VL)
+z3.RecAddDefinition(partial_npos, [_pl], z3.If(VL.is_nil(_pl), 0, z3.If(V.is_Int(V.fst(VL.hd(_pl))), 1, 0) + partial_npos(VL.tl(_pl))))
+UNFOLD['partial_npos'] = lambda l: z3.If(VL.is_nil(l), 0, z3.If(V.is_Int(V.fst(VL.hd(l))), 1, 0) + partial_npos(VL.tl(l)))
+
+
+def partial_bind(bound, pos, kws):
+    """the bound-argument list of functools.partial(f, *pos, **kws) given f's own bound list (partial of a partial flattens)"""
+    if pos:
+        prev = concrete_list(z3.simplify(bound))
+        if prev is not None:
+            base = z3.IntVal(sum(1 for p in prev if z3.is_true(z3.simplify(V.is_Int(V.fst(p))))))
+        else:
+            base = partial_npos(bound)
+        for i, vt in enumerate(pos):
+            bound = snoc(bound, V.Pair(V.Int(z3.simplify(base + i)), vt))
+    bound = assoc_set(bound, S('__partial__'), V.Bool(True))     # marks functools.partial objects (isinstance(x, partial))
+    for k, vt in kws:
+        bound = assoc_set(bound, S(k), vt)
+    return bound
+
+
 def b_partial(en, st, a, kw):
     f = a[0]
     if '**' in kw:
@@ -193,20 +217,17 @@ def b_partial(en, st, a, kw):
     ft, st = en.term(f, st)
     bound = V.fbound(ft)
     pos = list(a[1:])
-    if pos:
-        # positional bound arguments are stored under integer keys (after the ones already bound)
-        prev = concrete_list(z3.simplify(bound))
-        if prev is None:
-            raise SX.OutOfSubset("positional partial over a symbolic closure")
-        npos = sum(1 for p in prev if z3.is_true(z3.simplify(V.is_Int(V.fst(p)))))
-        for i, v in enumerate(pos):
-            vt, st = en.term(v, st)
-            bound = snoc(bound, V.Pair(V.Int(npos + i), vt))
-    bound = assoc_set(bound, S('__partial__'), V.Bool(True))     # marks functools.partial objects (isinstance(x, partial))
+    if pos and concrete_list(z3.simplify(bound)) is None and en.fork(st, bound != VL.nil) is None:
+        bound = VL.nil        # the path condition entails that nothing is bound yet
+    post, kwt = [], []
+    for v in pos:
+        vt, st = en.term(v, st)
+        post.append(vt)
     for k, v in kw.items():
         vt, st = en.term(v, st)
-        bound = assoc_set(bound, S(k), vt)
-    res = z3.simplify(V.Fun(V.fname(ft), bound))
+        kwt.append((k, vt))
+    # positional bound arguments are stored under integer keys (after the ones already bound)
+    res = z3.simplify(V.Fun(V.fname(ft), partial_bind(bound, post, kwt)))
 
     def call(en2, s, a2, kw2, f=f, kw=kw, pos=pos):
         merged = dict(kw)
